@@ -209,7 +209,7 @@ def c06(run):
     if rc != 0:
         run.broke('harness build', o[-1500:])
     else:
-        D.correspond(run, 'nonce', [])
+        D.correspond(run, 'nonce', [], reference_theorem='C06_iv_verbatim / C06_partial_iv_rfc / C06_refusals / C06_random_published / C06_*_nonce_source_is_model (model of the nonce selection of Encrypt / Decrypt, proved = RFC 9052)')
         D.correspond(run, 'objhist', [], reference_theorem='C01_object_produce_is_functional / C06_* (one message object over a history: the IV chosen by Encrypt is the one published)')
         D.oracle(run, 'reuse', [])
     run.cov['rule'] = ('Encrypt0/Encrypt x nonce sizes 7/12/13 x IV, Partial IV, Base IV presences, lengths 0..20 and wrong types, with a known entropy stream and a recording encryptor (Encrypt and Decrypt); '
